@@ -178,16 +178,18 @@ CHECKS["C05"] = {
     "pkg": "./core/consensus/qbft",
     "parallel": 6,
     "quick": [
-        {"harness": "VerifC05Tamper", "params": {"target": [0, 1, 2, 3, 4, 5, 6]}, "redirects": _C5R},
+        {"harness": "VerifC05Tamper", "params": {"target": [0, 1, 2, 3, 4, 5, 6, 7], "prime": 0}, "redirects": _C5R},
+        {"harness": "VerifC05Tamper", "params": {"target": [1, 2, 3], "prime": 1}, "redirects": _C5R},
         {"harness": "VerifC05Limits", "params": {"nj": [2, 3], "nvals": [6, 7], "expired": 0}, "redirects": _C5R},
         {"harness": "VerifC05Limits", "params": {"nj": 1, "nvals": [4, 5], "expired": [0, 1]}, "redirects": _C5R},
     ],
     "thorough": [
-        {"harness": "VerifC05Tamper", "params": {"target": [0, 1, 2, 3, 4, 5, 6]}, "redirects": _C5R, "cross": True},
+        {"harness": "VerifC05Tamper", "params": {"target": [0, 1, 2, 3, 4, 5, 6, 7], "prime": 0}, "redirects": _C5R, "cross": True},
+        {"harness": "VerifC05Tamper", "params": {"target": [1, 2, 3, 4], "prime": 1}, "redirects": _C5R, "cross": True},
         {"harness": "VerifC05Limits", "params": {"nj": [0, 1, 2, 3], "nvals": [0, 2, 4, 5, 6, 7, 8, 9], "expired": [0, 1]}, "redirects": _C5R},
     ],
     "bounds": {
-        "quick": "4 peers; a consensus wire message with 2 justifications and 2 values, every scalar field symbolic (type, duty slot/type, peer, round, prepared round, presence of value / prepared-value hashes, value bytes), built and signed through the real signMsg; one alteration of any signed field of the main message or of either justification (type, duty slot, duty type, peer index, round, prepared round, value hash, prepared value hash, signature byte, missing signature, signer substitution) or of the referenced value; a correctly signed justification taken from another duty (other slot or other duty type); count limits with 1 peer (<=2 justifications, <=2(j+1) values), gated duty (slot >= 200), expired duty",
+        "quick": "4 peers; a consensus wire message with 2 justifications and 2 values, every scalar field symbolic (type, duty slot/type, peer, round, prepared round, presence of value / prepared-value hashes, value bytes), built and signed through the real signMsg; one alteration of any signed field of the main message or of either justification (type, duty slot, duty type, peer index, round, prepared round, value hash, prepared value hash, signature byte, missing signature, signer substitution) or of the referenced value; a correctly signed justification taken from another duty (other slot or other duty type); the altered copy presented after the genuine message was accepted on the same node; a receive deadline that has already fired; count limits with 1 peer (<=2 justifications, <=2(j+1) values), gated duty (slot >= 200), expired duty",
         "thorough": "same, every VC decided by z3 and cvc5; all count combinations up to 3 justifications / 9 values",
     },
     "outside": "the real protobuf deterministic marshalling, SSZ merkleization and secp256k1 (hashProto = ideal injective hash of all message fields, signatures = ideal tokens naming signer and hash: 'a newly added proto field is covered by the signature' holds by the stub, not by the check); arbitrary byte strings on the wire (protobuf decoding); maxConsensusMsgSize (a libp2p option); the decided value handed to subscribers",
